@@ -178,3 +178,35 @@ def in3_handles_stay_home(ctx, rep):
                     okc = s.ck.startswith("core::fmt::rt::Argument::new_") or s.ck in ("std::clone::Clone::clone", "std::string::String::as_str", "std::ops::Deref::deref")
                     rep.check(okc, R, "name-only-formatted:%s" % short(b.path), s.where, "store name used for %s" % s.ck.split("::")[-1], "store name flows into %s (a lookup keyed by name would couple stores sharing a name)" % s.ck)
     rep.floor(R, "uses of the store name", n, 2)
+
+
+def in4_public_subscribers_have_no_lifecycle_state(ctx, rep):
+    """subscriber types the crate exports can be registered with several stores: their
+    on_unsubscribe (called by ONE store's unsubscribe/shutdown) must not change anything their
+    on_notify depends on"""
+    R = "IN4"
+    n = 0
+    for a in ctx.prog.facts.adts.values():
+        if a.get("vis") != "Public":
+            continue
+        impls = [b for b in ctx.impls_of("Subscriber", "on_notify") if (b.j.get("impl_adt") or "") == a["path"]]
+        if not impls:
+            continue
+        n += 1
+        ov = [b for b in ctx.impls_of("Subscriber", "on_unsubscribe") if (b.j.get("impl_adt") or "") == a["path"]]
+        for b in ov:
+            bp = ctx.prog.bp(b)
+            mut = []
+            for s in ctx.prog.sites(b):
+                if s.ck.startswith("std::sync::atomic::") and s.ck.split("::")[-1] not in ("load",):
+                    mut.append(s.ck.split("::")[-1])
+                if s.ck.startswith("std::sync::Mutex::") or s.ck.startswith("std::sync::RwLock::") or s.ck.startswith("std::cell::"):
+                    mut.append(s.ck.split("::")[-1])
+            for i in bp.cfg.nodes():
+                for st in b.blocks[i]["stmts"]:
+                    if st["k"] == "assign" and st["place"]["p"] and st["place"]["p"][0]["k"] == "deref":
+                        mut.append("store")
+            rep.check(not mut, R, "on_unsubscribe-is-stateless:%s" % a["path"].split("::")[-1], ctx.where(b), "on_unsubscribe of %s changes no state" % a["path"], "on_unsubscribe of the exported subscriber type %s changes its state (%s): unsubscribing it from / stopping one store changes what another store's notifications do" % (a["path"], sorted(set(mut))))
+        if not ov:
+            rep.ok(R, "on_unsubscribe-is-default:%s" % a["path"].split("::")[-1], "", "%s keeps the default (empty) on_unsubscribe" % a["path"])
+    rep.floor(R, "exported subscriber types", n, 2)
